@@ -22,7 +22,7 @@ RULE = ('seeded schedules: IMU stamps uniform / jittered / with 1..3 data gaps, 
         'interval apart, time_step 1 s), the one schedule of the existing tests; distinct = distinct seeds')
 ASSUMPTIONS = ['termination is decided as bounded progress: while-header visits <= 2 (increments + epochs in span) + 4 (sys.monitoring), '
                'never by wall clock', 'two streams of the same measurement class are outside the documented interface and not generated']
-REQUIRED_OBS = ['runs_completed', 'loop_iterations', 'integrate_events', 'predict_events', 'hit_events', 'correct_events',
+REQUIRED_OBS = ['reruns_with_same_objects', 'runs_completed', 'loop_iterations', 'integrate_events', 'predict_events', 'hit_events', 'correct_events',
                 'schedules_with_clusters', 'schedules_with_gaps', 'schedules_without_measurements', 'epochs_inside_total',
                 'time_step_below_imu_interval', 'offline_checks']
 REQUIRED_CLASSES = {'all': ['uniform', 'jitter', 'gaps']}
@@ -99,6 +99,18 @@ def run_case(case):
         obs['runs_completed'] = 1
         obs['offline_checks'] = 1
         out.extend(seqmodels.check_feedback(ev, r, S['increments'], S['sensors'], S['start'], loop))
+        if case['seed'] % 3 == 0 and not out:
+            # the same measurement and model objects handed to the filter again: the second run must consume every increment and sample
+            # exactly once too (a cursor / memo kept inside the objects only shows then)
+            r2, ev2, err2 = run_filter(S, loop)
+            obs['reruns_with_same_objects'] = 1
+            if err2 is not None:
+                out.append(dict(err2, message='[second run with the same objects] ' + err2['message']))
+            else:
+                out.extend(dict(v, message='[second run with the same objects] ' + v['message'])
+                           for v in seqmodels.check_feedback(ev2, r2, S['increments'], S['sensors'], S['start'], loop))
+                if not np.array_equal(r['trajectory'].values, r2['trajectory'].values) or not np.array_equal(r['trajectory_sd'].values, r2['trajectory_sd'].values):
+                    out.append(vio('rerun_differs', 'a second run with the same measurement / model objects returns a different trajectory or sd table'))
     # interleaving signature: how many measurement epochs fall into each sampling interval (run-length coded), the relation of the covariance
     # step to the sampling interval, and which sensors share epochs - the evidence reports how many DISTINCT interleavings were driven
     t_ = S['times']
